@@ -188,10 +188,10 @@ CHECKS["C05"] = _e1_entry("Every exit path restores the user's configuration.", 
     "the release reached step >= 1 and the run reached the terminal state.")
 
 CHECKS["C06"] = _e1_entry("Crashes and API errors never corrupt a rollout.", "c06-fault-enumeration", "TestC06FaultEnumeration",
-    "per case a baseline (scenario + generated prefix + fair completion, fault-free, W controller writes, K controller calls) and then one re-run per injected fault: crash after controller write i (the running reconcile is aborted, every later call of it fails, all controllers restart with empty in-memory state and re-listed queues) for every i (quick: at most 120 evenly spread), API error before call j, conflict before write i, lost response after write i (quick: 25 evenly spread indices each; thorough: every index), plus one random multi-fault run. Oracles per faulty run: all monitors of C01-C05/C09/C10/C18 hold on every prefix, the run reaches the terminal state, the cluster is clean, and the normalised final store equals the baseline's.",
+    "per case a baseline (scenario + generated prefix + fair completion, fault-free, W controller writes, K controller calls) and then one re-run per injected fault: crash after controller write i (the running reconcile is aborted, every later call of it fails, all controllers restart with empty in-memory state and re-listed queues) for every i (quick: at most 120 evenly spread), API error before call j, conflict before write i, lost response after write i (quick: 25 evenly spread indices each; thorough: up to 600 evenly spread indices each), plus one random multi-fault run. Oracles per faulty run: all monitors of C01-C05/C09/C10/C18 hold on every prefix, the run reaches the terminal state, the cluster is clean, and the normalised final store equals the baseline's.",
     "the fault actually fired (index within the faulty run's own call sequence).")
 CHECKS["C06"]["level"] = "fault_enumeration"
-CHECKS["C06"]["subchecks"] = [{"name": "c06-fault-enumeration", "pkg": "p06", "test": "TestC06FaultEnumeration", "quick": rp(16, 16, timeout=1200, shrinktime="120s"), "thorough": rp(160, 16, timeout=6000, shrinktime="600s")}]
+CHECKS["C06"]["subchecks"] = [{"name": "c06-fault-enumeration", "pkg": "p06", "test": "TestC06FaultEnumeration", "quick": rp(16, 16, timeout=1200, shrinktime="120s"), "thorough": rp(96, 16, timeout=6000, shrinktime="240s")}]
 
 
 _p11 = _load_snippet("p11")
